@@ -6,6 +6,7 @@ import (
 	"fmt"
 	"regexp"
 	"strconv"
+	"sync/atomic"
 	"time"
 
 	"github.com/relab/gorums"
@@ -139,6 +140,8 @@ func closed(ch <-chan struct{}) bool {
 // Runner replays call scenarios on an Env.
 type Runner struct {
 	E *Env
+	// Stuck counts the scenarios in which the driver had to declare quiescence.
+	Stuck int32
 }
 
 func (r *Runner) perNodeFn(sc ScParams) func(*puppet.Req, uint32) *puppet.Req {
@@ -483,6 +486,7 @@ func (r *Runner) Run(s Scenario) uint64 {
 		}
 	}
 	if stuck || !ended() {
+		atomic.AddInt32(&r.Stuck, 1)
 		tr.Emit("Quiescent", 0, tok)
 		if corr && obj.corr != nil {
 			r.obsCorr(tok, obj)
